@@ -1,6 +1,7 @@
 package main
 
 import (
+	"fmt"
 	"go/token"
 	"go/types"
 
@@ -42,6 +43,9 @@ func init() {
 		mutant{"handshake result applied on the dialing goroutine", "codec/websocket/stream.go",
 			"\t\t\t_ = s.ioc.Post(func() {\n\t\t\t\tif err != nil {\n\t\t\t\t\ts.state = StateTerminated\n\t\t\t\t} else {",
 			"\t\t\tif err != nil {\n\t\t\t\ts.state = StateTerminated\n\t\t\t}\n\t\t\t_ = s.ioc.Post(func() {\n\t\t\t\tif err != nil {\n\t\t\t\t\ts.state = StateTerminated\n\t\t\t\t} else {", "C05-R5"},
+		mutant{"wake-up skipped while a batch is dispatched", "internal/poll_linux.go",
+			"\t// Concurrent writes are thread safe for eventfds.\n\t_, err := p.waker.Write(1)\n\treturn err",
+			"\tif atomic.LoadInt64(&p.pending) > 1 {\n\t\treturn nil\n\t}\n\t_, err := p.waker.Write(1)\n\treturn err", "C05-R2"},
 		mutant{"Post prepends", "internal/poll_linux.go",
 			"\tp.posts = append(p.posts, handler)", "\tp.posts = append([]func(){handler}, p.posts...)", "C05-R3"},
 	)
@@ -203,7 +207,7 @@ func runC05(c *Ctx) {
 	}
 
 	// ------------------------------------------------------------------------------------------------ R2
-	c.rule("C05-R2", "wake-up ordering: Post appends before writing the eventfd; the dispatcher drains the eventfd before taking the queue", 2)
+	c.rule("C05-R2", "wake-up ordering: Post appends before writing the eventfd; the dispatcher drains the eventfd before taking the queue", 3)
 	for _, fn := range internalFuncs {
 		for _, w := range callsToFn(fn, efdWrite) {
 			// only the waker write that follows an append in the same function is Post's wake-up
@@ -228,6 +232,70 @@ func runC05(c *Ctx) {
 				return fv == posts && isAppendOf(st.Val)
 			})
 			c.check(!reach, fn, "eventfd write", w.Pos(), "the handler is queued before the loop is woken", "the eventfd is written on a path on which the handler has not been appended yet: the loop can wake up, find nothing and sleep again (lost wake-up)")
+		}
+		// every path that queued a handler wakes the loop, unless it is skipped under a flag that the dispatcher
+		// re-arms before it takes the queue (wake-up coalescing done right)
+		for _, a := range storesTo(fn, posts) {
+			if !isAppendOf(a.Val) {
+				continue
+			}
+			paths, overflow := enumPaths(fn)
+			if overflow {
+				c.unproven(fn, "wake-up", a.Instr.Pos(), "too many paths")
+				continue
+			}
+			bad := ""
+			for _, path := range paths {
+				if path.Panics {
+					continue
+				}
+				appended, woke := false, false
+				for _, in := range path.Instrs() {
+					if in == a.Instr {
+						appended = true
+					}
+					if appended && isCallToFn(in, efdWrite) {
+						woke = true
+					}
+				}
+				if !appended || woke {
+					continue
+				}
+				// skipped: find the flag fields tested on this path through sync/atomic
+				okSkip := false
+				for _, l := range path.Lits {
+					call, isCall := l.Cond.(*ssa.Call)
+					if !isCall {
+						if bo, isBin := l.Cond.(*ssa.BinOp); isBin {
+							call, isCall = stripConv(bo.X).(*ssa.Call)
+						}
+					}
+					if !isCall || call.Call.StaticCallee() == nil || call.Call.StaticCallee().Pkg == nil || call.Call.StaticCallee().Pkg.Pkg.Path() != "sync/atomic" || len(call.Call.Args) == 0 {
+						continue
+					}
+					flag, _ := fieldAddrOf(call.Call.Args[0])
+					if flag == nil {
+						continue
+					}
+					// the dispatcher must reset the flag before it takes the queue
+					for _, df := range internalFuncs {
+						for _, ld := range fieldAccesses(df, posts) {
+							if ld.Kind != "load" || !elementsInvoked(df, ld.Val, posts) {
+								continue
+							}
+							for _, fa := range fieldAccesses(df, flag) {
+								if fa.Kind == "addr" && dominatesInstr(fa.Instr, ld.Instr) {
+									okSkip = true
+								}
+							}
+						}
+					}
+				}
+				if !okSkip {
+					bad = fmt.Sprintf("a path that queued the handler returns without writing the eventfd (%s), and the flag it relies on is not re-armed by the dispatcher before the queue is taken", path)
+				}
+			}
+			c.check(bad == "", fn, "wake-up on every path", a.Instr.Pos(), "every Post that queued a handler wakes the loop", bad+": a Post landing while a batch is being dispatched is left queued with nobody to wake the loop")
 		}
 		// the function that takes the queue
 		var take []fieldAccess
